@@ -25,6 +25,7 @@ type PGrammar struct {
 	Actions map[[2]int]string   // (rule, position) -> code placed before that position (position == len(RHS): end of rule)
 	Opts    []string            // header option lines, e.g. "optimizeTables = true"
 	Lalr    int                 // lalr(k) directive when > 1
+	Flag    bool                // declare a template flag (and a never-enabled alternative guarded by it)
 }
 
 // TermName returns the spelling of terminal i (also its token text).
@@ -115,6 +116,7 @@ func RandCFG(r *rand.Rand) *PGrammar {
 	}
 	pg.coverUnreachable(r)
 	pg.decorate(r)
+	pg.Flag = r.Intn(4) == 0
 	return pg
 }
 
@@ -214,6 +216,9 @@ func (pg *PGrammar) Text(pkg string) string {
 	} else {
 		b.WriteString("\n:: parser\n\n")
 	}
+	if pg.Flag && pg.flagNT() >= 0 {
+		b.WriteString("%flag VF = false;\n\n")
+	}
 	b.WriteString("%input ")
 	for i, in := range pg.Inputs {
 		if i > 0 {
@@ -230,7 +235,11 @@ func (pg *PGrammar) Text(pkg string) string {
 		if len(rules) == 0 {
 			continue
 		}
-		fmt.Fprintf(&b, "%s :\n", name)
+		if pg.Flag && nt == pg.flagNT() {
+			fmt.Fprintf(&b, "%s<VF> :\n", name)
+		} else {
+			fmt.Fprintf(&b, "%s :\n", name)
+		}
 		for k, ri := range rules {
 			if k == 0 {
 				b.WriteString("    ")
@@ -262,6 +271,10 @@ func (pg *PGrammar) Text(pkg string) string {
 				b.WriteString("%empty ")
 			}
 			b.WriteString("\n")
+		}
+		if pg.Flag && nt == pg.flagNT() {
+			// the flag is false by default and never set: this alternative does not exist in the language
+			fmt.Fprintf(&b, "  | [VF] '%s' '%s' '%s'\n", pg.CFG.Terms[0], pg.CFG.Terms[0], pg.CFG.Terms[0])
 		}
 		b.WriteString(";\n\n")
 	}
@@ -463,4 +476,21 @@ func LeftRecCFG(r *rand.Rand) *PGrammar {
 		pg.decorate(r)
 	}
 	return pg
+}
+
+// flagNT returns the nonterminal that carries the template flag: the last one that is
+// not an input (inputs cannot be parametrized), or -1.
+func (pg *PGrammar) flagNT() int {
+	for nt := len(pg.CFG.Nonterms) - 1; nt >= 0; nt-- {
+		isInput := false
+		for _, in := range pg.Inputs {
+			if in.NT == nt {
+				isInput = true
+			}
+		}
+		if !isInput && len(pg.CFG.RulesOf(nt)) > 0 {
+			return nt
+		}
+	}
+	return -1
 }
